@@ -582,6 +582,9 @@ func realWithNonFinite(op token.Token, f float64, nfLeft bool) value {
 
 func symBinopFP(fr *frame, op token.Token, x, y value) value {
 	pc := fr.i.pc
+	if r, ok := intLikeBinop(pc, op, x, y); ok {
+		return r
+	}
 	a, b := termOf(x, skFP), termOf(y, skFP)
 	ar := func(o string) value {
 		return sym{k: skFP, bk: types.Float64, t: pc.def(fpSort, "("+o+" RNE "+a+" "+b+")")}
@@ -662,7 +665,22 @@ func symConv(fr *frame, dst types.BasicKind, x sym) value {
 			if bkSigned(x.bk) {
 				o = "to_fp"
 			}
-			return sym{k: skFP, bk: dst, t: pc.def(fpSort, "((_ "+o+" 11 53) RNE "+x.t+")")}
+			r := sym{k: skFP, bk: dst, t: pc.def(fpSort, "((_ "+o+" 11 53) RNE "+x.t+")")}
+			w := bkWidth(x.bk)
+			m := w
+			ext := x.t
+			if bkSigned(x.bk) {
+				m = w - 1
+				if w < 64 {
+					ext = fmt.Sprintf("((_ sign_extend %d) %s)", 64-w, x.t)
+				}
+			} else if w < 64 {
+				ext = fmt.Sprintf("((_ zero_extend %d) %s)", 64-w, x.t)
+			}
+			if m <= 52 {
+				pc.setIntOrigin(r.t, pc.def(bvSort(64), ext), m)
+			}
+			return r
 		}
 		// exact real value of the integer (|v| < 2^53 assumed for exactness; recorded)
 		pc.stats.Assumptions["int->float64 conversions are exact (|v| < 2^53)"] = true
@@ -687,6 +705,15 @@ func symConv(fr *frame, dst types.BasicKind, x sym) value {
 		pc.stats.Assumptions["float->int conversions of symbolic reals are in range of the target type"] = true
 		t := "(ite (>= " + x.t + " 0.0) (to_int " + x.t + ") (- (to_int (- " + x.t + "))))"
 		return sym{k: skInt, bk: dst, t: pc.def("Int", t)}
+	case x.k == skFP && bkIsInt(dst) && pc.intOriginFits(x.t, bkWidth(dst)):
+		// integer-valued float with a known in-range integer origin: exact, no FP reasoning
+		io := pc.intOrig[x.t]
+		w := bkWidth(dst)
+		t := io.bv
+		if w < 64 {
+			t = fmt.Sprintf("((_ extract %d 0) %s)", w-1, io.bv)
+		}
+		return sym{k: skBV, bk: dst, t: pc.def(bvSort(w), t)}
 	case x.k == skFP && bkIsInt(dst):
 		o := "fp.to_ubv"
 		if bkSigned(dst) {
@@ -775,6 +802,10 @@ func tableLookup(fr *frame, elems []value, n int, at func(i int) value, idx sym)
 
 // concretizeInt forks over the feasible values of symbolic integer x in [lo,hi].
 func concretizeInt(pc *pathCtx, x sym, lo, hi int64) int64 {
+	if hi-lo > 64 {
+		// wide range: enumerate the feasible values through solver models instead
+		return pc.concretizeByModel(x.t, func(c int64) string { return eqConst(x, c) }, 48)
+	}
 	return pc.concretize(func(c int64) string { return eqConst(x, c) }, lo, hi)
 }
 
@@ -838,4 +869,87 @@ func boundValue(fr *frame, b value, lo, hi int64, what string) int64 {
 		panic(goPanic{fmt.Sprintf("slice bounds out of range [%s%d] with capacity/length %d (low %d)", what, i, hi, lo)})
 	}
 	return i
+}
+
+// ---- integer-valued floats (FInt): floats known to equal an exactly representable integer ----
+
+type intOrigin struct {
+	bv   string // signed 64-bit bit-vector term with the same value
+	bits int    // magnitude bound: |v| < 2^bits, bits <= 52
+}
+
+func (pc *pathCtx) setIntOrigin(fpTerm, bv string, bits int) {
+	if pc.intOrig == nil {
+		pc.intOrig = map[string]intOrigin{}
+	}
+	pc.intOrig[fpTerm] = intOrigin{bv, bits}
+}
+
+func (pc *pathCtx) intOriginFits(fpTerm string, dstWidth int) bool {
+	io, ok := pc.intOrig[fpTerm]
+	return ok && io.bits < dstWidth
+}
+
+// intLike returns the integer origin of a float operand (symbolic with a recorded origin, or a
+// concrete integer-valued float of magnitude < 2^52).
+func intLike(pc *pathCtx, v value) (intOrigin, bool) {
+	switch x := v.(type) {
+	case sym:
+		if x.k == skFP {
+			io, ok := pc.intOrig[x.t]
+			return io, ok
+		}
+	case float64:
+		if x == math.Trunc(x) && math.Abs(x) < 1<<52 && !(x == 0 && math.Signbit(x)) {
+			i := int64(x)
+			m := 0
+			for a := uint64(math.Abs(x)); a != 0; a >>= 1 {
+				m++
+			}
+			return intOrigin{bvLit(uint64(i), 64), m}, true
+		}
+	}
+	return intOrigin{}, false
+}
+
+func intLikeBinop(pc *pathCtx, op token.Token, x, y value) (value, bool) {
+	a, ok1 := intLike(pc, x)
+	b, ok2 := intLike(pc, y)
+	if !ok1 || !ok2 {
+		return nil, false
+	}
+	mk := func(bvop string, bits int) (value, bool) {
+		if bits > 52 {
+			return nil, false
+		}
+		bv := pc.def(bvSort(64), "("+bvop+" "+a.bv+" "+b.bv+")")
+		t := pc.def(fpSort, "((_ to_fp 11 53) RNE "+bv+")")
+		pc.setIntOrigin(t, bv, bits)
+		return sym{k: skFP, bk: types.Float64, t: t}, true
+	}
+	max := a.bits
+	if b.bits > max {
+		max = b.bits
+	}
+	switch op {
+	case token.ADD:
+		return mk("bvadd", max+1)
+	case token.SUB:
+		return mk("bvsub", max+1)
+	case token.MUL:
+		return mk("bvmul", a.bits+b.bits)
+	case token.EQL:
+		return mkBool(pc, "(= "+a.bv+" "+b.bv+")"), true
+	case token.NEQ:
+		return mkBool(pc, "(not (= "+a.bv+" "+b.bv+"))"), true
+	case token.LSS:
+		return mkBool(pc, "(bvslt "+a.bv+" "+b.bv+")"), true
+	case token.LEQ:
+		return mkBool(pc, "(bvsle "+a.bv+" "+b.bv+")"), true
+	case token.GTR:
+		return mkBool(pc, "(bvsgt "+a.bv+" "+b.bv+")"), true
+	case token.GEQ:
+		return mkBool(pc, "(bvsge "+a.bv+" "+b.bv+")"), true
+	}
+	return nil, false
 }
